@@ -41,8 +41,12 @@ Proof.
   unfold step in Hs. cbv beta iota in Hs. destruct (in_round s p) as [r|] eqn:Er; [|discriminate].
   apply in_round_some in Er. destruct Er as (Eh & _ & _ & Hround).
   match type of Hs with (if ?c then _ else _) = _ => destruct c eqn:G; [|discriminate] end. clear Hs.
-  rewrite !andb_true_iff in G. destruct G as (((((G1 & G2) & G3) & G4) & G5) & G6).
-  apply Bool.eqb_prop in G1.
+  rewrite !andb_true_iff in G. destruct G as (((G1 & G3) & G245) & G6).
+  apply Bool.eqb_prop in G1. rewrite check_complete_spec in G1.
+  apply skip_update_spec in G245.
+  assert (G2 : r_updated r || isnil (r_placed r) = true) by (destruct G245 as [->|(_ & -> & _)]; [reflexivity|apply orb_true_r]).
+  assert (G5 : r_updated r || isnil (r_seen r) = true) by (destruct G245 as [->|(-> & _)]; [reflexivity|apply orb_true_r]).
+  assert (G4 : r_updated r || eqsetN (r_out r) (ids s) = true) by (destruct G245 as [->|(_ & _ & ->)]; [reflexivity|apply orb_true_r]).
   assert (Vst : vst s = r_st r) by (unfold vst; rewrite Eh; reflexivity).
   assert (Vbl : vbl s = r_bl r) by (unfold vbl; rewrite Eh; reflexivity).
   assert (Hdone : forall j, In j (all_jobs sc) -> r_st r j = DONE -> In j (P s)).
